@@ -67,7 +67,9 @@ def cross_target_stage(res, pid, tier, seed, workdir, stats, gen_fn, targets=Non
             outs, crashed, info = hh.run_miri(tkey, cases, workdir, tag, shards=(hh.NPROC if tier == "thorough" else 6))
             holder["info"] = info
             return outs, crashed
-        info0 = {"arch": "other", "std": "1", "_line": "cfg arch=other std=1 tf_sse41=0 tf_avx2=0 simd128=0 cpu_sse41=0 cpu_avx2=0"}
+        ptr, endian = {"s390x": ("64", "big"), "powerpc": ("32", "big"), "i686": ("32", "little")}.get(tkey, ("64", "little"))
+        info0 = {"arch": "other", "std": "1", "ptr": ptr, "endian": endian,
+                 "_line": f"cfg arch=other std=1 tf_sse41=0 tf_avx2=0 simd128=0 cpu_sse41=0 cpu_avx2=0 ptr={ptr} endian={endian}"}
         if not miri_ok(tkey):
             res.notes.append(f"Miri target {tkey} unavailable: cross-target stage not executed")
             continue
@@ -631,7 +633,8 @@ def check_mod():
 
 T.PRE.update({"C16": pre_facts, "C17": pre_facts, "C18": pre_facts, "C15": pre_facts})
 def gen_cross_c12(r, tier, info):
-    return [gen.adapters(r, ["portable", "auto"]) for _ in range(20 if tier == "quick" else 300)] + [gen.builders(r) for _ in range(10 if tier == "quick" else 100)]
+    return [gen.adapters(r, ["portable", "auto"]) for _ in range(20 if tier == "quick" else 300)] + [gen.builders(r) for _ in range(10 if tier == "quick" else 100)] + \
+           [gen.provided(r, ["portable", "auto"], info) for _ in range(24 if tier == "quick" else 300)]
 
 
 def special_c07(res, tier, seed, workdir, stats):
